@@ -18,7 +18,8 @@ IMPORTS = ["Model.Objects", "Model.PodSpec", "Model.Backoff", "Model.ErsReconcil
 RULE = ("(a) the real command bodies (canary pause / unpause / validate / fail, rolling-update pause / unpause, rollout freeze / "
         "unfreeze) run through the verif shims against stores in every state class - no canary, canary running, auto-paused, "
         "user-paused, failed, mid rolling update, canary strategy removed, canary replica set missing - with every prior value of "
-        "the annotations (absent, true, false, other); the stored objects are diffed before/after; (b) histories: the real controllers "
+        "the annotations (absent, true, false, other); the stored objects are diffed before/after; (c) a command on a running "
+        "canary overtaken by a template change before the next reconcile; (b) histories: the real controllers "
         "reach such states, then sequences of one to three commands are issued and followed by replica-set syncs and "
         "ExtendedDaemonSet reconciles, every step being judged by the pause/state, promotion and rollback monitors. "
         "Non-trivial = a command acted (patched or failed a canary) or was refused for a documented reason.")
@@ -31,13 +32,26 @@ CODES = {
     1: "model does not predict the command / reconcile",
     10: "a command changed something other than its documented annotation or condition",
     11: "a command acted although its precondition does not hold",
-    12: "a canary pod was created while the canary is paused or failed",
-    13: "the canary stayed paused although canary-unpaused is true and it is not failed",
-    14: "status.state / status.reason do not reflect the paused, frozen or canary situation",
-    15: "a paused canary without the canary-valid annotation was promoted",
+    # the reconciles that follow a command: monitors of C08 (+20), C05 (+30), C07 (+50)
+    30: "a pod was deleted for updating while rolling-update-paused is true",
+    31: "a pod was created or deleted for updating while rollout-frozen is true",
+    32: "a canary pod was created while the canary is paused or failed",
+    33: "the canary stayed paused although canary-unpaused is true and it is not failed",
+    34: "status.state / status.reason do not reflect the paused, frozen or canary situation",
+    35: "a paused canary without the canary-valid annotation was promoted",
+    40: "activeReplicaSet switched to the new replica set although the promotion rule does not allow it (validate names another replica set, ...)",
+    41: "activeReplicaSet set to a replica set that is neither the recorded active nor the one matching spec.template",
+    42: "a canary marked failed was promoted",
+    43: "manual validation mode: promoted without the canary-valid annotation",
+    44: "the recorded active replica set is gone but the matching one was not adopted",
+    45: "time is missing for the promotion but the reconcile did not ask to be requeued at that moment",
+    60: "a status written during the rollback keeps status.canary, changes activeReplicaSet or does not report Canary Failed",
+    61: "the object update of the rollback does not restore the active template / clear the canary pause annotations",
+    62: "the rollback did not write both the status and the object although nothing was rejected",
+    63: "a failed canary replica set was deleted within two minutes of its failure",
+    64: "a replica set still reporting pods was deleted",
     20: "harness panic",
 }
-# codes of the reused C05 / C07 monitors keep their numbers there; they are disjoint from the above except 10-15, renamed here
 GO_TIMEOUT = 1800
 CMDS = {"canary_pause": "CanaryPause", "canary_unpause": "CanaryUnpause", "canary_validate": "CanaryValidate", "canary_fail": "CanaryFail",
         "ru_pause": "RuPause", "ru_unpause": "RuUnpause", "freeze": "Freeze", "unfreeze": "Unfreeze"}
@@ -146,6 +160,25 @@ def generate(rng, tier, stats):
     # (b) histories reached by the real controllers, with commands
     for _ in range(30 if tier == "quick" else 500):
         out.append(histgen.gen_history(rng, stats, canary=True, length=rng.choice([12, 20]), fair_tail=1))
+    # (c) a command overtaken by a spec change: validate (pause, fail) the running canary, change the template before the
+    # controller reconciles; the command applies to the replica set that was the canary when it ran, not to a later one
+    for _ in range(12 if tier == "quick" else 200):
+        n = rng.choice([2, 3, 4])
+        c = histgen.gen_history(rng, None, n=n, canary=True, length=0)
+        e = [o for o in c["objects"] if o["kind"] == "ExtendedDaemonSet"][0]
+        can = e["spec"]["strategy"]["canary"]
+        can.pop("duration", None)
+        can.pop("noRestartsDuration", None)
+        can["validationMode"] = "manual"
+        ops = c["ops"] + histgen.rollout_ops(rng, 2) + [histgen.edit("ExtendedDaemonSet", histgen.NS, histgen.EDS, "image:img:2")]
+        ops += histgen.rollout_ops(rng, 2)
+        cm = rng.choice(["canary_validate", "canary_validate", "canary_pause", "canary_fail"])
+        ops += [K.cmd(cm, histgen.NS, histgen.EDS), histgen.edit("ExtendedDaemonSet", histgen.NS, histgen.EDS, "image:img:3"),
+                histgen.rec_eds(), K.sleep(1), histgen.rec_eds(), histgen.rec_all_ers(rng), histgen.rec_eds()]
+        ops += histgen.rollout_ops(rng, 2)
+        c["ops"] = ops
+        wprop.bump(stats, "command overtaken by a template change", cm)
+        out.append(c)
     return out
 
 
